@@ -1,6 +1,6 @@
 ----------------------------- MODULE KeysTrace -----------------------------
 (* C12, code -> spec.  TRACES is a JSON array of runs [events |-> <<...>>]; events
-     key  proc, seed, hist, label, m, p, r, s, e, d (content classes assigned by the driver with pharmpy's own ==
+     key  proc, seed, conf, hist, label, m, p, r, s, e, d (content classes assigned by the driver with pharmpy's own ==
           and dataset equality), k (str(ModelHash(model)) computed by process proc under PYTHONHASHSEED seed)
      rt   via, cin, cout (class of the object put in / read back; 0: failed), what (type of the object)
    Every event must be an enabled action of Keys whose effect keeps Functional / Injective / TripsEqual.
@@ -21,7 +21,7 @@ CanKey == Ev.ev = "key" /\ FunctionalG(Sig, Ev.k) /\ InjectiveG(Sig, Ev.k)
 CanTrip == Ev.ev = "rt" /\ Ev.cout = Ev.cin
 Can == l <= Len(Events) /\ (CanKey \/ CanTrip)
 
-TraceKey == Ev.ev = "key" /\ Key(Ev.proc, Ev.seed, Ev.hist, Ev.label, Sig, Ev.k)
+TraceKey == Ev.ev = "key" /\ Key(Ev.proc, Ev.seed, Ev.conf, Ev.hist, Ev.label, Sig, Ev.k)
 TraceTrip == Ev.ev = "rt" /\ RoundTrip(Ev.via, Ev.cin, Ev.cout)
 Explained == /\ Can = TRUE
              /\ (TraceKey \/ TraceTrip)
@@ -36,9 +36,9 @@ Why == IF Ev.ev = "rt" THEN "roundtrip_unequal"
        ELSE IF ~FunctionalG(Sig, Ev.k) THEN "same_content_different_key"
        ELSE IF ~InjectiveG(Sig, Ev.k) THEN "different_content_same_key"
        ELSE "event not of the contract"
-Other == IF Conflicting = {} THEN [hist |-> "", label |-> "", proc |-> "", seed |-> "", m |-> 0]
+Other == IF Conflicting = {} THEN [hist |-> "", label |-> "", proc |-> "", seed |-> "", conf |-> "", m |-> 0]
          ELSE LET o == CHOOSE x \in Conflicting : TRUE
-              IN [hist |-> o.hist, label |-> o.label, proc |-> o.proc, seed |-> o.seed, m |-> o.m]
+              IN [hist |-> o.hist, label |-> o.label, proc |-> o.proc, seed |-> o.seed, conf |-> o.conf, m |-> o.m]
 EmitRej == (l <= Len(Events) /\ ~Can) => PrintT(<<"REJ", ToJson([tid |-> tid, l |-> l, why |-> Why, other |-> Other])>>)
 EmitAcc == (l = Len(Events) + 1 /\ nrej = 0) => PrintT(<<"ACC", ToJson(tid)>>)
 =============================================================================
